@@ -664,7 +664,10 @@ void f_unique_mapping (void) {
                     }
                 }
 
-              elt = ALLOCATE (mapping_node_t, 105, "f_unique_mapping:6");
+              /* every node is released with free_node(), which puts it on the free
+               * list of the node allocator: a node obtained from malloc() directly
+               * is never given back, and nobody takes nodes off that list for us */
+              elt = new_map_node ();
               *elt->values = uptr->key;
               (elt->values + 1)->type = T_ARRAY;
               ret = (elt->values + 1)->u.arr = allocate_empty_array (size = uptr->count);
